@@ -1,9 +1,12 @@
 import Driver.Expr
+import Driver.Flow
 
 def dispatch (line : String) : String :=
   match (line.trimAscii.toString.splitOn " ").filter (· ≠ "") with
   | "expr" :: args => Driver.Expr.handle args
   | "lit" :: args => Driver.Expr.handleLit args
+  | "asmret" :: args => Driver.Flow.handleAsmRet args
+  | "mainflow" :: args => Driver.Flow.handleMain args
   | _ => "bad-op"
 
 partial def loop (h : IO.FS.Stream) (out : IO.FS.Stream) : IO Unit := do
